@@ -67,6 +67,14 @@ class Enc:
             if m: s.env[m.group(1)] = s.load(m.group(2)); continue
             m = re.match(r'store i64 (%\d+), i64\* (%\d+)', l)
             if m: s.mem[('OUT',) + s.ptr[m.group(2)]] = s.env[m.group(1)]; continue
+            m = re.match(r'(%\d+) = icmp ult i(\d+) (\S+), (\S+)', l)
+            if m:
+                d, w, a, b = m.groups(); va, vb = s.val(a, int(w)), s.val(b, int(w))
+                cy = getattr(s, 'carry', {}).get(va[0][0][0].get_id()) if len(va[0]) == 1 else None
+                if cy and s.term(vb).get_id() in cy[1]:
+                    s.env[d] = (cy[0][0], 1); continue        # (a+b mod 2^w) < b  <=>  carry out of a+b
+                s.fresh += 1; c = Int(f'c{s.fresh}'); s.S.add(c >= 0, c <= 1, (c == 1) == (s.term(va) < s.term(vb)))
+                s.env[d] = ([(c, 1)], 1); s.generic_icmp = getattr(s, 'generic_icmp', 0) + 1; continue
             m = re.match(r'(%\d+) = (zext|trunc) i(\d+) (\S+) to i(\d+)', l)
             if m:
                 d, op, w0, a, w1 = m.groups(); v = s.val(a, int(w0)); w1 = int(w1)
@@ -116,9 +124,29 @@ class Enc:
                         oj = other[j]; assert is_int_value(oj[0]) and oj[0].as_long() == 0, 'or of overlapping bits'
                     i += pick[1]
                 r = (out, va[1] + vb[1])
-            if r[1] >= 2**w: s.oblig.append(('no-wrap', l, s.term(r) < 2**w))
+            if r[1] >= 2**w:
+                if getattr(s, 'wrap_ok', False) and op == 'add':
+                    lo_, hi_ = s.cut(r, w); r = lo_
+                    if not hasattr(s, 'carry'): s.carry = {}
+                    if len(lo_[0]) == 1: s.carry[lo_[0][0][0].get_id()] = (hi_, {s.term(va).get_id(), s.term(vb).get_id()})
+                else: s.oblig.append(('no-wrap', l, s.term(r) < 2**w))
             s.env[d] = r
         return s
+def main_mul512(ll):
+    args, body = parse('k_scalar_mul_512', ll); r_, a_, b_ = args
+    t0 = time.time(); e = Enc({a_: [64]*4, b_: [64]*4}); e.wrap_ok = True; e.run(args, body)
+    out = [e.mem[('OUT', r_, i)] for i in range(8)]
+    V = sum(e.term(out[i]) * 2**(64*i) for i in range(8)); T = 0; seen = set()
+    for key, (pv, ta, tb) in e.atoms.items():
+        (ba, i), (bb, j) = e.src[ta.get_id()], e.src[tb.get_id()]; seen.add((i, j) if ba == a_ else (j, i)); T = T + pv * 2**(64*(i+j))
+    assert len(seen) == 16, seen
+    print('constraints', len(e.S.assertions()), 'cuts/carries', e.fresh, 'atoms', len(e.atoms), 'pending', len(e.oblig))
+    for kind, l, ob in e.oblig:
+        e.S.push(); e.S.add(Not(ob)); print('  no-wrap', l[:50], e.S.check()); e.S.pop()
+    e.S.push(); e.S.add(V != T); print('l[0..8) != a*b ?', e.S.check()); e.S.pop()
+    print('time %.2fs' % (time.time() - t0))
+if __name__ == '__main__' and len(sys.argv) > 2 and sys.argv[2] == 'mul512':
+    main_mul512(sys.argv[1]); sys.exit(0)
 if __name__ == '__main__':
     fn = sys.argv[2] if len(sys.argv) > 2 else 'k_fe_mul_inner'
     args, body = parse(fn, sys.argv[1]); r_, a_, b_ = args
